@@ -60,6 +60,7 @@ pub mod ops {
     pub const WAKER_POOL: u32 = 1 << 10;
     pub const PANIC_PUSH: u32 = 1 << 11;
     pub const PUSH_WHEN_FULL: u32 = 1 << 12;
+    pub const UNLEASH: u32 = 1 << 13;
 }
 
 #[derive(Clone, Copy, PartialEq, Eq, Debug, Hash)]
@@ -70,6 +71,9 @@ pub enum Epilogue {
     Drain,
     /// only from states in which every held child is pending: poll until a quiet Pending
     Quiesce,
+    /// keep polling (nothing is completed) until every woken victim has been polled or the
+    /// starvation bound is exceeded
+    Starve,
 }
 
 #[derive(Clone, Debug)]
@@ -97,6 +101,9 @@ pub struct Cfg {
     /// per-child operations are offered only for these prefilled children (None = all) and for
     /// every child pushed during the history
     pub focus: Option<Vec<u32>>,
+    /// self-waking children start dormant (see Op::Unleash)
+    pub dormant: bool,
+    pub up_modes: [Mode; 2],
 }
 
 impl Cfg {
@@ -119,6 +126,8 @@ impl Cfg {
             check_hints: false,
             horizon: 400,
             focus: None,
+            dormant: false,
+            up_modes: [Mode::Gate, Mode::Ready],
         }
     }
     pub fn limit(&self) -> usize {
@@ -140,9 +149,11 @@ pub enum Op {
     Wake(u32),
     StaleWake(u32),
     FeedUp,
+    Unleash,
     Move,
     DropSubject,
     CloneWaker(u32),
+    DropStored(u32),
     PoolWake(usize),
     PoolWakeOwned(usize),
     PoolDrop(usize),
@@ -267,6 +278,9 @@ impl<'a> Run<'a> {
                 if cfg.ops & ops::MOVE != 0 {
                     m.push((Op::Move, costly(ops::MOVE)));
                 }
+                if cfg.ops & ops::UNLEASH != 0 && w.dormant {
+                    m.push((Op::Unleash, costly(ops::UNLEASH)));
+                }
                 if cfg.ops & ops::DROP_SUBJECT != 0 {
                     m.push((Op::DropSubject, costly(ops::DROP_SUBJECT)));
                 }
@@ -304,6 +318,9 @@ impl<'a> Run<'a> {
                     }
                     if cfg.ops & ops::WAKER_POOL != 0 && self.pool.len() < 2 {
                         m.push((Op::CloneWaker(id), costly(ops::WAKER_POOL)));
+                    }
+                    if cfg.ops & ops::WAKER_POOL != 0 {
+                        m.push((Op::DropStored(id), costly(ops::WAKER_POOL)));
                     }
                 }
             }
@@ -396,6 +413,23 @@ impl<'a> Run<'a> {
                 }
                 w(|w| w.env_wake_depth -= 1);
             }
+            Op::Unleash => {
+                let ids: Vec<u32> = w(|w| {
+                    w.dormant = false;
+                    (0..w.children.len() as u32)
+                        .filter(|&i| {
+                            let c = &w.children[i as usize];
+                            c.accepted && c.drops == 0 && !c.completed && (c.mode == Mode::YieldInf || c.omega)
+                        })
+                        .collect()
+                });
+                for id in ids {
+                    if let Some(wk) = clone_child_waker(id) {
+                        invoke_child_waker(&wk);
+                        in_crate(|| drop(wk));
+                    }
+                }
+            }
             Op::Move => {
                 let s = self.subj.take().unwrap();
                 self.subj = Some(s.relocate());
@@ -406,6 +440,10 @@ impl<'a> Run<'a> {
                     EXTRA_WAKERS.with(|e| e.borrow_mut().push(wk.data() as usize));
                     self.pool.push(wk);
                 }
+            }
+            Op::DropStored(id) => {
+                let wk = w(|w| w.children[*id as usize].waker.take());
+                in_crate(|| drop(wk));
             }
             Op::PoolWake(i) => {
                 let wk = in_crate(|| self.pool[*i].clone());
@@ -541,6 +579,21 @@ impl<'a> Run<'a> {
                 }
             }
             let held = w.held() as u64;
+            let cp = w.cpoll_id;
+            let starving: Option<(usize, u64)> = w
+                .children
+                .iter()
+                .enumerate()
+                .filter(|(_, c)| c.accepted && c.drops == 0 && !c.completed)
+                .filter_map(|(i, c)| c.victim_wake_cpoll.map(|c0| (i, cp - c0)))
+                .find(|(_, waited)| *waited > 4 * held + 8);
+            if let Some((i, waited)) = starving {
+                w.violate(
+                    "C13",
+                    "starvation",
+                    format!("child {} has been woken {} polls ago and has still not been polled ({} children held)", i, waited, held),
+                );
+            }
             if w.spin_hit {
                 w.violate("C13", "poll-does-not-return", "a single poll kept polling a self-waking child more than 100000 times");
             } else if w.child_polls_in_call > 512 * (held + w.completed_in_call.len() as u64 + 1) {
@@ -667,6 +720,10 @@ impl<'a> Run<'a> {
         w(|w| {
             if cfg.kind.is_collection() && nonempty {
                 w.violate("C02", "none-while-holding", format!("{:?}: poll_next returned None while {} accepted future(s) have not been yielded", cfg.kind, self.model.len()));
+                if cfg.kind.is_ordered() {
+                    let front = self.model[0];
+                    w.violate("C04", "queue-ended-before-front", format!("{:?}: the reference queue still holds future {} at its front, but poll_next returned None", cfg.kind, front));
+                }
             }
             if cfg.kind.is_merge() {
                 let live = w.children.iter().filter(|c| c.accepted && c.drops == 0 && !c.completed).count();
@@ -1004,6 +1061,9 @@ impl<'a> Run<'a> {
                     } else if cfg.kind.is_collection() && left > 0 {
                         w.violate("C02", "accepted-never-yielded", format!("{:?}: {} accepted future(s) were never yielded", cfg.kind, left));
                     }
+                    if cfg.kind.is_collection() && cfg.kind.is_ordered() && left > 0 {
+                        w.violate("C04", "queue-item-never-yielded", format!("{:?}: the yielded sequence stops short of the reference queue ({} item(s) missing)", cfg.kind, left));
+                    }
                     if finished && cfg.kind.is_merge() {
                         // union: every item every source produced came out exactly once
                         let lost = w.toks.iter().filter(|t| t.handed != 1).count();
@@ -1018,6 +1078,25 @@ impl<'a> Run<'a> {
                         }
                     }
                 });
+            }
+            Epilogue::Starve => {
+                if self.subj.is_none() {
+                    return;
+                }
+                let bound = 4 * w(|w| w.held()) + 8 + 2;
+                for _ in 0..bound {
+                    let waiting = w(|w| {
+                        w.children.iter().any(|c| {
+                            c.accepted && c.drops == 0 && !c.completed && c.victim_wake_cpoll.is_some() && c.mode != Mode::YieldInf && !c.omega
+                        })
+                    });
+                    if !waiting || matches!(self.last_out_kind, 2 | 4 | 5 | 6 | 7) {
+                        break;
+                    }
+                    self.epilogue_steps += 1;
+                    self.do_poll(false);
+                    self.post_op();
+                }
             }
             Epilogue::Quiesce => {
                 if self.subj.is_none() || !self.all_pending() {
@@ -1192,6 +1271,10 @@ fn probe_release(base: *mut u8, size: usize, align: usize) -> bool {
                     if held_wakers.iter().any(|&p| p >= b && p < b + size) {
                         w.violate("C03", "released-while-waker-outstanding", format!("waker block {:#x} released while the environment still holds a waker into it", b));
                     }
+                    if w.defer_free {
+                        // poison the released block: any later write into it is found at the end of the run
+                        unsafe { std::ptr::write_bytes(base, 0xDD, size) };
+                    }
                     w.defer_free
                 }
             }
@@ -1234,6 +1317,17 @@ fn free_deferred() {
     let blocks: Vec<(usize, usize, usize, u32)> = w(|w| w.blocks.drain(..).map(|b| (b.base, b.size, b.align, b.released)).collect());
     for (base, size, align, released) in blocks {
         if released >= 1 && align != 0 {
+            let bytes = unsafe { std::slice::from_raw_parts(base as *const u8, size) };
+            if let Some(off) = bytes.iter().position(|b| *b != 0xDD) {
+                let v = bytes[off];
+                w(|w| {
+                    w.violations.push(Violation {
+                        prop: "C03",
+                        key: "write-after-release".into(),
+                        msg: format!("byte {} of waker block {:#x} ({} bytes) was overwritten with {:#04x} after the block had been released", off, base, size, v),
+                    })
+                });
+            }
             unsafe { std::alloc::dealloc(base as *mut u8, std::alloc::Layout::from_size_align(size, align).unwrap()) };
         }
     }
@@ -1266,6 +1360,8 @@ fn run_inner(cfg: &Cfg, prefix: &[u8], log_on: bool) -> ExecResult {
         w.up.remaining = cfg.up_len;
         w.up.hint = cfg.hint;
         w.up.is_try = cfg.kind.is_try();
+        w.up.modes = cfg.up_modes;
+        w.dormant = cfg.dormant;
     });
     let mut run = Run {
         cfg,
